@@ -757,6 +757,13 @@ fn cow_mutator(c: &CowBytes<'_>, s: &[u8], which: &'static str, k: usize) -> (bo
                 (Some(r), None) => r.len() == r.as_ref().len(), // out of range, tolerated: only coherence
                 (None, _) => true,
             };
+            // values that share storage with the original (the mutated clone, the returned part) compare equal to it and
+            // to each other exactly when their octets are equal
+            let eq_as_bytes = |x: &CowBytes<'_>, y: &CowBytes<'_>| ((*x == *y) == (x.as_ref() == y.as_ref())) && ((*y == *x) == (x.as_ref() == y.as_ref()));
+            let eq_ok = eq_as_bytes(&d, c) && ret.as_ref().is_none_or(|r| eq_as_bytes(r, c) && eq_as_bytes(r, &d));
+            if self_ok && ret_ok && !eq_ok {
+                return (false, Some((format!("eq.shared-storage.{which}"), format!("after {which}({k}) on {}: `==` between the original, the value left ({}) and the value returned ({:?}) disagrees with the equality of their octets", hex(s), hex(d.as_ref()), ret.as_ref().map(|r| hex(r.as_ref()))))));
+            }
             if self_ok && ret_ok {
                 (false, None)
             } else {
